@@ -54,6 +54,10 @@ CLAIMED = {
         text="C11_to_io_is_encode / C11_to_io_failure / C11_writer_prefix (writer receives exactly the plain encoding; a failing writer gives an error and holds a prefix), C11_from_io_is_slice (reader path = slice path, reader left holding exactly the bytes after the message), C11_from_io_total (any failing reader, any scratch size: value or error, never a panic or a write outside the scratch), C11_scratch_slots (borrowed data in consecutive disjoint slots). Partial: piecewise delivery inside read_exact/write_all is modelled; the harness drives real std::io readers/writers with 1-byte/short/whole schedules and failure injection at every offset.",
         note=NOTE + "std::io::{Read::read_exact, Write::write_all, flush}; embedded-io adapters are not yet exercised",
         design="6 (C11)"),
+    'C12': dict(
+        text="C12_bound: for every type expression over all built-in MaxSize impls (integers, NonZero*, floats, bool, char, unit, PhantomData, Option, Result, arrays, references, Box/Rc/Arc, tuples 1-6, ranges, heapless Vec/String of any capacity) and the derive (structs: sum of fields; enums: discriminant width + max over variants), every value of the type serialises to at most max_size bytes, where max_size EVALUATES the impl rows translated from max_size.rs on every run with varint_max/varint_size/max/varint_size_discriminant translated from the sources; C12_varint_size / C12_discriminant: the two size helpers bound the prefix/discriminant varints (leading_zeros arithmetic with wrap-around discharged); C12_tight: for integers, floats, bool, char, unit, arrays, tuples, options, fixed-capacity strings/vectors (and wrappers/derived structs of those) an explicit value attains the maximum; C12_enum_not_tight example. Correspondence + direct oracle: about 130 concrete types using the WORKSPACE derive: T::POSTCARD_MAX_SIZE vs the model, serialized_size of maximising and random values <= the constant, to_slice into a buffer of that size, captured values typed by the model, tightness attained.",
+        note=NOTE + "serde's impls for the corpus types (captured by a recording serializer and compared with the model's typing), the proc-macro expansion of the derive (its rule is hand-modelled; its output is compared on the corpus incl. enums with 0,1,2,4,127,128,129 variants)",
+        design="6 (C12)"),
     'C13': dict(
         text="C13_ops/C13_bytes/C13_length/C13_roundtrip: for every width, sign, byte order and integer a fixint field serialises as exactly size_of raw pushes in the chosen order (never a varint) and decodes back; the extracted model is compared with the real crate on every generated value and the direct oracle (bytes == to_{le,be}_bytes, round trip) runs on the implementation.",
         note=NOTE + "serde's [u8;N] impl (array as tuple) and to_le_bytes/from_le_bytes",
